@@ -15,7 +15,8 @@ func init() {
 		Explanation: "Static rules on the pre-authentication decode and dispatch path. " +
 			"R-C05-1: every allocation reachable from ReadPacket whose size derives from a wire-decoded parameter is dominated by an upper-bound comparison of that value against a constant. " +
 			"R-C05-2: every unbounded sink (io.Copy / io.ReadAll / ReadFrom) fed by a gzip reader on that path reads through io.LimitReader with a constant limit and the copied size is compared against the limit before success. " +
-			"R-C05-3: every loop that reads the peer's reader leaves the loop when the read reports an error (a finite stream ends in EOF, so the loop terminates). " +
+			"R-C05-6: a json.Unmarshal whose destination is the address of a pointer variable (JSON null stores nil) is followed only by nil-tested dereferences (program-wide). " +
+			"R-C05-3: the server's packet read loops end on any ReadPacket error that is not a timeout-and-temporary one (retry classifiers answer true only under Timeout()); every loop that reads the peer's reader leaves the loop when the read reports an error (a finite stream ends in EOF, so the loop terminates). " +
 			"R-C05-4: the dispatcher refuses nil packets before any field access, its fall-through returns an error, special-case command handlers run only under CommandPacket != nil, and optional SessionManager components (fields that are nil-tested somewhere in the package) are nil-tested before use in every function reachable from the dispatcher. " +
 			"R-C05-5: no single-value type assertion is applied to JSON-decoded data in those functions. " +
 			"Decides these necessary conditions; does not decide absence of all panics or CPU time.",
@@ -139,7 +140,17 @@ func runC05(r *Report) {
 					if !ok || (bo.Op != token.GTR && bo.Op != token.GEQ) || bo.X != n {
 						continue
 					}
-					if k, ok := ConstInt(bo.Y); !ok || k > limN {
+					// the smallest size the comparison refuses must be reachable through the limiter
+					// (n never exceeds limN): `n > limN` can never fire and truncates silently
+					k, ok := ConstInt(bo.Y)
+					if !ok {
+						continue
+					}
+					smallest := k
+					if bo.Op == token.GTR {
+						smallest = k + 1
+					}
+					if smallest > limN {
 						continue
 					}
 					// true edge must lead to an error return only
@@ -182,6 +193,38 @@ func runC05(r *Report) {
 		}
 	}
 	r.Floor("R-C05-3", 1, "read loops on the peer's reader")
+	// the server's packet loops: a ReadPacket error other than a timeout that is also temporary
+	// ends the loop (directly, or through the wrapper's exit flag the loop obeys)
+	nLoops := 0
+	for _, pk := range []string{"internal/protocol/adapter", "internal/httpservice/modules/websocket"} {
+		for _, g := range r.P.FuncsIn(pk) {
+			for _, ci := range Calls(g, true, "ReadPacket") {
+				if ci.Common().Signature().Results().Len() != 3 {
+					continue
+				}
+				nLoops++
+				ok, why := CheckPacketReadLoop(r.P, ci, 2)
+				r.Ob("R-C05-3", CallPos(ci), ok, "a failed packet read ends the connection's read loop: "+why, r.P.FuncName(ci.Parent()), "packet-read-error-exits-loop")
+			}
+		}
+	}
+	if nLoops < 2 {
+		r.Fail("R-C05-3", 0, fmt.Sprintf("only %d server packet read loops found (2 confirmed by hand)", nLoops), "packet-loops", "floor")
+	}
+
+	// ---- R-C05-6 JSON null cannot nil a pointer that is then dereferenced ---------------
+	nNull := 0
+	for _, g := range r.P.Funcs {
+		for _, nd := range nullDecodes(g) {
+			nNull++
+			pos := nd.call
+			if nd.bad != token.NoPos {
+				pos = nd.bad
+			}
+			r.Ob("R-C05-6", pos, nd.bad == token.NoPos, "json.Unmarshal into the address of a pointer variable: the body `null` leaves the pointer nil, so every dereference after it needs a nil test (decode into the pointed-to struct instead)", r.P.FuncName(g), "null-decode-deref")
+		}
+	}
+	r.Note("R-C05-6: %d json.Unmarshal call(s) decode into the address of a pointer variable (expected 0 on the reference tree; the rule is exercised by the null-decode control)", nNull)
 
 	// ---- R-C05-4 dispatcher totality -----------------------------------------
 	hp := r.need("R-C05-4", sessPkg, "SessionManager.HandlePacket")
@@ -573,5 +616,60 @@ func closureSites(fn *ssa.Function) []ssa.Instruction {
 			out = append(out, in)
 		}
 	})
+	return out
+}
+
+type nullDecode struct {
+	call token.Pos
+	bad  token.Pos // an unguarded dereference after the decode (NoPos when all are nil-tested)
+}
+
+// nullDecodes lists the json.Unmarshal calls of g whose destination is **T (JSON null stores a
+// nil *T) together with a dereference of that variable that is not under a non-nil test.
+func nullDecodes(g *ssa.Function) []nullDecode {
+	var out []nullDecode
+	for _, um := range Calls(g, false, "json:Unmarshal") {
+		mi, ok := Arg(um, 1).(*ssa.MakeInterface)
+		if !ok {
+			continue
+		}
+		pt, ok := mi.X.Type().Underlying().(*types.Pointer)
+		if !ok {
+			continue
+		}
+		if _, isPP := pt.Elem().Underlying().(*types.Pointer); !isPP {
+			continue
+		}
+		nd := nullDecode{call: CallPos(um)}
+		al, ok := mi.X.(*ssa.Alloc)
+		if !ok {
+			nd.bad = um.Pos()
+		} else if al.Referrers() != nil {
+			for _, ref := range *al.Referrers() {
+				ld, ok := ref.(*ssa.UnOp)
+				if !ok || ld.Op != token.MUL || ld.Referrers() == nil {
+					continue
+				}
+				for _, use := range *ld.Referrers() {
+					fa, isFA := use.(*ssa.FieldAddr)
+					if !isFA || !CanReachBlock(um.Block(), fa.Block()) {
+						continue
+					}
+					guarded := false
+					for _, ft := range Facts(fa.Block()) {
+						if x, isnil, ok := ft.FactNil(); ok && !isnil {
+							if u, ok := stripValue(x).(*ssa.UnOp); ok && u.X == ssa.Value(al) {
+								guarded = true
+							}
+						}
+					}
+					if !guarded {
+						nd.bad = fa.Pos()
+					}
+				}
+			}
+		}
+		out = append(out, nd)
+	}
 	return out
 }
